@@ -334,6 +334,41 @@ func (r *recorder) count(pred func(mEvent) bool) int {
 	return n
 }
 
+// ---- memory watchdog ---------------------------------------------------------------------------------------
+
+// rssBytes reads the resident set size of this process.
+func rssBytes() int64 {
+	b, err := os.ReadFile("/proc/self/statm")
+	if err != nil {
+		return 0
+	}
+	var size, rss int64
+	fmt.Sscanf(string(b), "%d %d", &size, &rss)
+	return rss * int64(os.Getpagesize())
+}
+
+// startMemoryWatchdog kills THIS process (harness error, exit status 3) when its resident memory exceeds the limit
+// (default 3 GiB, VERIF_MEM_LIMIT_MB overrides): whatever a (mutated) proxy does, the driver must not take the machine
+// down.  The recorders are bounded as well; this is the backstop.
+func startMemoryWatchdog() {
+	limit := int64(3) << 30
+	if v := os.Getenv("VERIF_MEM_LIMIT_MB"); v != "" {
+		var mb int64
+		if _, err := fmt.Sscanf(v, "%d", &mb); err == nil && mb > 0 {
+			limit = mb << 20
+		}
+	}
+	go func() {
+		for {
+			if r := rssBytes(); r > limit {
+				fmt.Fprintf(os.Stderr, "HARNESS-ERROR: memory watchdog: resident set %d MiB exceeds %d MiB, aborting\n", r>>20, limit>>20)
+				os.Exit(3)
+			}
+			time.Sleep(100 * time.Millisecond)
+		}
+	}()
+}
+
 // ---- resource accounting ----------------------------------------------------------------------------------
 
 func fdCount() int {
